@@ -2,7 +2,7 @@ SPEC = dict(
     id="C25",
     bin="c25",
     cases_quick=700,
-    cases_thorough=30000,
+    cases_thorough=15000,
     level="proof",
     technique="Coq history theorems (fold_left over arbitrary update lists from a zero-initialised feed) over a Gallina model of PriceFeed::update + differential correspondence with the real function through a cfg(gmsol_verif) wrapper under a stubbed clock, whole histories per case + property oracle on the observed states",
     text="For every sequence of updates with arbitrary timestamps, prices, slots, clock values (even going backwards), future-excess settings and modes: the price timestamp, the publication slot and the publication time never decrease at any point of the history, the stored price always satisfies min <= price <= max (and ts >= 0), a rejected update leaves the account unchanged, an accepted update stores the whole price and is not from the future, and in idempotent mode an older update is skipped (Ok(false), no change) exactly when the clock is sane.",
